@@ -85,8 +85,21 @@ IRenumberRow(shape, key, trow) ==
        [] k.k = "list"  -> k.v[trow[RankOf(key, i)] + 1]]
 IRenumber(a) == [st |-> "ok", subs |-> [r \in DOMAIN a.tsubs |-> IRenumberRow(a.shape, a.key, a.tsubs[r])]]
 
+---------------------------------------------------------------------------
+\* to_memory_order(array, order, copy): the same values in the requested memory order.  The state is the LAYOUT of the
+\* operand: created "C" (last index fastest), "F" (first index fastest) or "strided" (every second slice of a C-ordered
+\* array along the first dimension).  numpy ignores dimensions of length one when it decides whether an array already
+\* is in an order; an array that is in the order is handed back as it is unless a copy is requested.
+Big(dims)  == Cardinality({i \in DOMAIN dims : dims[i] > 1})
+Contig(dims, layout, order) ==
+  CASE layout = "strided" -> dims[1] <= 1 /\ (order = "C" \/ Big(dims) <= 1)
+    [] layout = order     -> TRUE
+    [] OTHER              -> Big(dims) <= 1
+MemOrder(a) == [st |-> "ok", shares |-> (~a.copy /\ Contig(a.dims, a.layout, a.order))]
+
 Expected(op, a) ==
-  CASE op = "wrap" -> WrapDims(a)
+  CASE op = "memorder" -> MemOrder(a)
+    [] op = "wrap" -> WrapDims(a)
     [] op = "renumber" -> Renumber(a)
     [] op = "irenumber" -> IRenumber(a)
 
@@ -97,7 +110,11 @@ PlumbWhy(op, a, res) ==
   IF res.st \notin {"ok", "rejected"} THEN res.st
   ELSE IF res.st # e.st THEN (IF e.st = "ok" THEN "well-formed-request-refused" ELSE "ill-formed-request-answered")
   ELSE IF e.st = "rejected" THEN "ok"
-  ELSE CASE op = "wrap" -> IF res.r # e.r THEN "row-modes" ELSE IF res.c # e.c THEN "column-modes"
+  ELSE CASE op = "memorder" -> IF ~res.same_values THEN "values" ELSE IF ~res.in_order THEN "not-in-requested-order"
+                               ELSE IF a.copy /\ res.shares THEN "copy-shares-storage"
+                               ELSE IF res.shares # e.shares THEN "needless-copy-or-unexpected-sharing"
+                               ELSE IF ~res.operand_kept THEN "operand-modified" ELSE "ok"
+         [] op = "wrap" -> IF res.r # e.r THEN "row-modes" ELSE IF res.c # e.c THEN "column-modes"
                            ELSE IF ~res.ints THEN "modes-not-integers" ELSE "ok"
          [] op = "renumber" -> IF Len(res.shape) # Len(e.shape) THEN "region-order"
                                ELSE IF ~ShapeAgrees(a.key, res.shape, e.shape) THEN "region-shape"
